@@ -1,6 +1,7 @@
 """C16 - roll-up and paint-on SCC text is conserved and ordered.
 
-Inputs: roll-up (depth 2, 3, 4) and paint-on programs: 1-8 rows of basic and special characters (1-32 characters,
+Inputs: roll-up (depth 2, 3, 4) and paint-on programs: 1-8 rows of basic, special and extended characters drawn from
+every code of the three tables (extended ones after a stand-in, doubled in doubled mode; 1-32 characters,
 no leading/trailing blank), each row `[CR] PAC [TO] text` (roll-up) or `[RDC] PAC [TO] text` (paint-on; rows without
 their own RDC accumulate in one buffer), row addresses fixed or varying, codes doubled (PAC+TO doubled as a unit,
 special characters sent twice) or single, drop / non-drop timecode, inter-line gaps 0..300 frames, one or several
@@ -22,37 +23,15 @@ BASIC_EXTRA = "áéíóúçÑñ÷"
 
 
 def rand_row(rng):
+    """1-32 displayed characters from EVERY code of the basic / special / extended tables (extended characters are
+    sent after a stand-in); -> (text shown on a 608 screen, tokens)"""
     n = rng.choice([1, 2, 3, 5, 8, 13, 20, 31, 32, rng.randint(1, 32)])
-    cs = []
-    for i in range(n):
-        r = rng.random()
-        if r < 0.06:
-            c = rng.choice(list(SPECIALS))
-            if cs and cs[-1] == c:         # single codes: an immediately repeated special character is one character
-                c = "x"
-            cs.append(c)
-        elif r < 0.10:
-            cs.append(rng.choice(BASIC_EXTRA))
-        elif r < 0.22 and 0 < i < n - 1 and cs[-1] != " ":
-            cs.append(" ")
-        else:
-            cs.append(rng.choice(LETTERS))
-    return "".join(cs)
+    toks = g.rand_tokens(rng, n, p_special=0.07, p_ext=0.09)
+    return g.tokens_text(toks), toks
 
 
-def row_words(text, doubled):
-    """basic characters in pairs, special characters as (doubled) code words on a word boundary"""
-    ws = []
-    run = ""
-    for ch in text:
-        if ch in SPECIALS:
-            ws += g.text_words(run)
-            run = ""
-            ws += g.dbl([g.special(SPECIALS[ch])], doubled)
-        else:
-            run += ch
-    ws += g.text_words(run)
-    return ws
+def row_words(toks, doubled):
+    return g.tokens_words(toks, doubled)
 
 
 def pac_unit(row, col, doubled, rng):
@@ -67,14 +46,15 @@ def gen_program(rng):
     doubled = rng.random() < 0.6
     drop = rng.random() < 0.5
     nrows = rng.randint(1, 8)
-    rows = [rand_row(rng) for _ in range(nrows)]
+    rich = [rand_row(rng) for _ in range(nrows)]
+    rows = [t for t, _ in rich]
     lines = []
     frame = rng.choice([0, 30, 30 * 3600, 30 * 7261 + 7])
     addr_style = rng.choice(["fixed", "fixed", "indent", "rows"])
     base_row = rng.choice([15, 15, 14, 1, 7])
     cur = []
     prev_row = 0
-    for i, text in enumerate(rows):
+    for i, (text, toks) in enumerate(rich):
         if addr_style == "fixed":
             r, c = base_row, 0
         elif addr_style == "indent":
@@ -95,7 +75,7 @@ def gen_program(rng):
         else:
             if own_rdc:
                 ws += g.dbl([g.RDC], doubled)
-        ws += pac_unit(r, c, doubled, rng) + row_words(text, doubled)
+        ws += pac_unit(r, c, doubled, rng) + row_words(toks, doubled)
         cur += ws
         if rng.random() < 0.75 or i == len(rows) - 1:
             lines.append((frame, cur))
@@ -128,7 +108,8 @@ def run(ctx):
         dist["rows"][len(p["rows"])] = dist["rows"].get(len(p["rows"]), 0) + 1
         dist["doubled"] += p["doubled"]
         dist["drop"] += p["drop"]
-        dist["special_chars"] += sum(1 for r in p["rows"] for ch in r if ch in SPECIALS)
+        dist["special_chars"] += sum(1 for r in p["rows"] for ch in r if ch in g.SPECIAL_608 and ch != " ")
+        dist["extended_chars"] = dist.get("extended_chars", 0) + sum(1 for r in p["rows"] for ch in r if ch in g.EXT1_608 or ch in g.EXT2_608)
         n_out = len(o.v) if isinstance(o, Ok) else -1
         dist["captions_out"][n_out] = dist["captions_out"].get(n_out, 0) + 1
         desc = {k: p[k] for k in ("mode", "doubled", "drop", "rows")}
